@@ -12,7 +12,7 @@
                 least four "_" separated fields; a shorter name is an ordinary name)            *)
 From Coq Require Import List.
 From SV Require Import Base.Base Cmp.Comparer Cmp.Diff Cmp.Equiv Proofs.CmpPinSet Proofs.CmpWitness Proofs.CmpProps
-  Proofs.CmpSound Proofs.CmpComplete Proofs.CmpSoundExact.
+  Proofs.CmpSound Proofs.CmpComplete Proofs.CmpSoundExact Proofs.CmpAcceptAny.
 
 (* ---- accepts: a named netlist compared with itself / a structurally equal copy ---- *)
 Theorem C20_accepts : forall a, wf_named a -> compare a a = true.
@@ -22,6 +22,23 @@ Print Assumptions C20_accepts.
 Theorem C20_accepts_copy : forall a b, wf_named a -> b = a -> compare a b = true.
 Proof. exact accepts_copy. Qed.
 Print Assumptions C20_accepts_copy.
+
+(* beyond the named netlists: EVERY netlist of the model is accepted against its own copy.
+   wf_any a (Proofs/CmpAcceptAny.v): the names of the named siblings are pairwise different, every
+   pin on a wire can be followed (pins of children without a name, of removed children, pins without
+   a port included), property dictionaries have unique keys.  Unnamed elements, assignment names,
+   any characters in names, ports without pins are all allowed.  (Was false before the repairs:
+   C20_refuted_self_* .)  Checked on the implementation on every run: oracle equal-copy-any. *)
+Theorem C20_accepts_any : forall a, wf_any a -> compare a a = true.
+Proof. exact accepts_self_any. Qed.
+Print Assumptions C20_accepts_any.
+(* the named netlists of C20_accepts are a special case *)
+Theorem C20_named_is_any : forall a, wf_named a -> wf_any a.
+Proof. exact wf_named_any. Qed.
+Print Assumptions C20_named_is_any.
+Example C20_accepts_any_ex :
+  wf_any w_noname /\ ~ wf_named w_noname /\ wf_any w_unnamed /\ wf_any w_asg2 /\ wf_any w_wild /\ wf_any w_zero.
+Proof. exact accepts_any_ex. Qed.
 
 Example C20_accepts_ex : wf_named w_base /\ no_asg w_base /\ compare w_base w_base = true.
 Proof. exact accepts_ex. Qed.
